@@ -133,10 +133,10 @@ DecElems(b, i, n, acc) ==
 \* all values of a stream, and how it ends: "complete" | "trunc" | "bad" | "huge"
 RECURSIVE DecStreamR(_, _, _)
 DecStreamR(b, i, acc) ==
-  IF i > Len(b) THEN [vals |-> acc, st |-> "complete", at |-> i]
+  IF i > Len(b) THEN [vals |-> acc, st |-> "complete", at |-> i, from |-> i]
   ELSE LET r == Dec(b, i) IN
        IF r.ok THEN DecStreamR(b, r.next, Append(acc, r.v))
-       ELSE [vals |-> acc, st |-> r.why, at |-> r.at]
+       ELSE [vals |-> acc, st |-> r.why, at |-> r.at, from |-> i]     \* from: where the value that did not decode starts
 DecStream(b) == DecStreamR(b, 1, <<>>)
 
 OneFrame(b) == LET r == Dec(b, 1) IN r.ok /\ r.next = Len(b) + 1
